@@ -286,6 +286,12 @@ impl<'a> Gen<'a> {
         } else {
             let saved = (self.loop_depth, self.breakable);
             self.loop_depth = 0; self.breakable = 0;
+            if d >= 2 && self.r.chance(8) {
+                // a definition nested in this one (its own table of locals; the name is global)
+                self.tags.push("nested-def");
+                self.def(d - 1);
+                self.in_fun = true;
+            }
             self.block(d - 1);
             self.expr(d.min(2));
             self.loop_depth = saved.0; self.breakable = saved.1;
@@ -328,7 +334,7 @@ pub fn gen_program(r: &mut Rng, cfg: &GenCfg) -> (String, Vec<&'static str>) {
 /// shadowed locals, tagged values stored over equal untagged ones
 pub fn shape(r: &mut Rng) -> String {
     let (a, b, n) = (r.range(-9, 99), r.range(-9, 99), r.range(0, 5));
-    match r.below(11) {
+    match r.below(15) {
         0 => format!("{} var x : getx x ; {} var x getx x", a, b),
         1 => format!("0 var acc : add acc + ! acc ; {} add 0 var acc {} ! acc 1 add acc", a, b),
         2 => format!(": f {} ; : g f ; : f {} ; g f", a, b),
@@ -339,6 +345,11 @@ pub fn shape(r: &mut Rng) -> String {
         7 => format!(": f local p {} 0 do p I * local q q loop p ; {} f", n, a),
         8 => format!("{} var x x {{ 1 2 }} with-tags ! x x tags x {} ! x x", a, a),
         9 => format!("{} 0 do I 1 == if break then I loop {} 0 do {} 0 do I J + 2 == if break then loop loop 99", n + 1, n, n + 1),
-        _ => format!("{} var z z ! z z {} ! z z", a, a),
+        10 => format!("{} var z z ! z z {} ! z z", a, a),
+        // a definition inside a definition: each has its own table of locals, also when the names coincide
+        11 => format!(": outer local a : inner local a a 10 * ; {} inner a ; {} outer", n, a),
+        12 => format!(": o local p local q : i local q local p p q - ; p q i q p ; {} {} o", a, b),
+        13 => format!("{} var g : o local g : i g local g g + ; {} i g ; {} o g", a, n, b),
+        _ => format!(": o local x : i local y y 1 + ; x i local y : j local x x y ; y ; {} o {} j", a, b),
     }
 }
